@@ -97,7 +97,19 @@ async function read_case_inner(c) {
     try {
         let header = null;
         if (c.has_header) header = await it.get_header();
-        let recs = await it.get_all_records();
+        let recs;
+        if (c.slow_consumer) {
+            // the way rbql.query() with an asynchronous writer consumes the iterator: one record, then back to the event loop
+            recs = [];
+            while (true) {
+                let r = await it.get_record();
+                if (r === null) break;
+                recs.push(r);
+                await new Promise(resolve => setImmediate(resolve));
+            }
+        } else {
+            recs = await it.get_all_records();
+        }
         out.records = recs;
         out.header = header;
         out.warnings = it.get_warnings();
@@ -129,6 +141,10 @@ async function readcomp_case(c) {
         }
         pieces.push(data.subarray(start).toString('hex'));
         let r = await read_case(Object.assign({}, c, {mode: 'stream', pieces: pieces}));
+        if (c.also_slow_consumer && result_key(r) === basekey) {
+            r = await read_case(Object.assign({}, c, {mode: 'stream', pieces: pieces, slow_consumer: true}));
+            executions += 1;
+        }
         executions += 1;
         chunks_delivered += pieces.length;
         if (result_key(r) !== basekey) {
